@@ -205,7 +205,11 @@ def run(tier):
                     try: w = replay(c)
                     except Exception as e: w = None
                     if w: hit = (c, w); break
-            if hit: rep.violation("local:" + json.dumps(hit[0], sort_keys=True), hit[1] + "  [%s: %s]" % (r["name"], fobj["desc"]), hit[0])
+            if r["name"].startswith("open:"):
+                w = open_panel()
+                if w: hit = ({"open_panel": True}, w)
+            if hit and "open_panel" in hit[0]: rep.violation("open:" + hit[1][:100], hit[1] + "  [%s: %s]" % (r["name"], fobj["desc"]), hit[0])
+            elif hit: rep.violation("local:" + json.dumps(hit[0], sort_keys=True), hit[1] + "  [%s: %s]" % (r["name"], fobj["desc"]), hit[0])
             else: rep.spurious.append({"job": r["name"], "obligation": fobj["desc"], "model": fobj.get("model")})
     rep.bounds = ["$TZ unset or of length %s (every byte value except NUL), $LOCALTIME unset or 3 symbolic bytes" % [x for x in tzl if x is not None],
                   "zone names of length %s, $TZDIR unset / empty / 3 symbolic bytes; fopen succeeds or fails freely" % nl,
@@ -236,9 +240,29 @@ def expected_local_name(tz, lt):
     if z == "localtime": z = lt if lt is not None else "/etc/localtime"
     return z
 
+def open_panel():
+    """FileZoneInfoSource::Open through load_time_zone on a real directory: names and $TZDIR values with the documented outcome"""
+    import subprocess, tempfile, shutil
+    d = tempfile.mkdtemp(prefix="cctz-verif-open-")
+    try:
+        shutil.copy(build.REPO + "/testdata/zoneinfo/America/New_York", d + "/Zone")
+        rel = d.lstrip("/") + "/Zone"                 # relative spelling of the same file as seen from the root directory
+        cases = [("-", d + "/Zone", 1), (d, "Zone", 1), (d, "file:Zone", 1), ("-", "file:" + d + "/Zone", 1), (d, "Nope", 0), (d, "file:Nope", 0),
+                 (d, d + "/Zone", 1), ("", d + "/Zone", 1), ("", "file:" + d + "/Zone", 1),
+                 # an empty $TZDIR means the default directory, not the root directory
+                 ("", rel, 0), ("", "file:" + rel, 0), ("/", rel, 1)]
+        for tzdir, name, want in cases:
+            env = dict(os.environ); env.pop("TZDIR", None)
+            p = subprocess.run([_replay_exe(), "open", tzdir if tzdir != "" else "", name, str(want)], capture_output=True, text=True, env=env, timeout=30)
+            if p.returncode == 1: return p.stdout.strip()
+        return None
+    finally:
+        shutil.rmtree(d, ignore_errors=True)
+
 def replay(case):
     """case: {"TZ": str|None, "LOCALTIME": str|None}; LOCALTIME given as a real zone file so that the outcome is observable"""
     import subprocess
+    if case.get("open_panel"): return open_panel()
     tz = case.get("TZ"); lt = case.get("LOCALTIME")
     want = expected_local_name(tz, lt)
     env = dict(os.environ); env["TZDIR"] = build.REPO + "/testdata/zoneinfo"
